@@ -1,31 +1,72 @@
 --------------------------------- MODULE Pool ---------------------------------
-(* The workspace discipline of mat/pool.go on top of sync.Pool: G goroutines     *)
-(* repeatedly get a workspace, use it, and put it back.  A correct client puts   *)
-(* each workspace it got exactly once.  R1 shows the discipline keeps every      *)
-(* buffer with at most one holder; the DoublePut constant models the regression  *)
-(* (a workspace returned twice) and TLC then finds two holders of one buffer -   *)
-(* the state the trace acceptor (ForkJoinTrace PGet/PPut) rejects in real logs.  *)
+(* The workspace discipline of mat/pool.go on top of sync.Pool.                  *)
+(*                                                                              *)
+(* Part 1 (holders).  G goroutines repeatedly get a workspace, use it, and put  *)
+(* it back.  A correct client puts each workspace it got exactly once.  R1      *)
+(* shows the discipline keeps every buffer with at most one holder; the         *)
+(* DoublePut constant models the regression (a workspace returned twice) and    *)
+(* TLC then finds two holders of one buffer - the state the trace acceptor      *)
+(* (ForkJoinTrace PGet/PPut) rejects in real logs.                              *)
+(*                                                                              *)
+(* Part 2 (size classes).  The pools are stratified by size: class k hands out  *)
+(* buffers for requests of 2^(k-1) < l <= 2^k elements by RESLICING the         *)
+(* buffer to l, so every buffer filed under class k must have capacity >= 2^k   *)
+(* (ClassPromise); put files a buffer under PoolFor(cap).  A holder may         *)
+(* replace the backing array of a workspace while it holds it (a Reset          *)
+(* followed by a larger reuseAs reallocates): Regrow = 0 never, 1 only to       *)
+(* power-of-two capacities (harmless: PoolFor(2^k) = k), 2 to the exact         *)
+(* requested capacity (the regression: PoolFor(10) = 4 promises 16).  With      *)
+(* Regrow = 2 TLC must find ClassPromise and NoSliceOutOfRange violated; the    *)
+(* trace acceptor states the same clause on logged put events (CapOK).          *)
 EXTENDS Integers, FiniteSets, TLC
 
-CONSTANTS G, B, DoublePut
+CONSTANTS G, B, DoublePut, Regrow, MaxClass
 
 Gs == 1 .. G
 Bufs == 1 .. B
-VARIABLES pool, holds, putsLeft     \* pool: bag of buffers (count per buffer); holds[g]: buffer or 0
-vars == <<pool, holds, putsLeft>>
+Classes == 0 .. MaxClass
+Pow2(k) == 2 ^ k
+MaxCap == Pow2(MaxClass)
+\* ceiling of the base 2 logarithm (mat/pool.go poolFor)
+PoolFor(size) == IF size <= 1 THEN 0 ELSE CHOOSE k \in 1 .. 30 : Pow2(k) >= size /\ Pow2(k - 1) < size
 
-Init == pool = [b \in Bufs |-> 1] /\ holds = [g \in Gs |-> 0] /\ putsLeft = [g \in Gs |-> 0]
+VARIABLES pool, holds, putsLeft,    \* pool: bag of buffers (count per buffer); holds[g]: buffer or 0
+          cap, cls,                 \* capacity of each buffer; class under which a pooled buffer is filed
+          oob                       \* a get resliced a buffer beyond its capacity (a run-time panic in the code)
+vars == <<pool, holds, putsLeft, cap, cls, oob>>
 
-Get(g, b) == /\ holds[g] = 0 /\ putsLeft[g] = 0 /\ pool[b] > 0
-             /\ pool' = [pool EXCEPT ![b] = @ - 1] /\ holds' = [holds EXCEPT ![g] = b]
-             /\ putsLeft' = [putsLeft EXCEPT ![g] = IF DoublePut /\ g = 1 THEN 2 ELSE 1]
+\* buffer b starts pooled in class (b - 1) % (MaxClass + 1) with the capacity sync.Pool.New gives it
+Init == /\ pool = [b \in Bufs |-> 1] /\ holds = [g \in Gs |-> 0] /\ putsLeft = [g \in Gs |-> 0]
+        /\ cls = [b \in Bufs |-> (b - 1) % (MaxClass + 1)]
+        /\ cap = [b \in Bufs |-> Pow2((b - 1) % (MaxClass + 1))]
+        /\ oob = FALSE
+
+\* goroutine g asks for l elements and is handed buffer b of class PoolFor(l)
+Get(g, b, l) == /\ holds[g] = 0 /\ putsLeft[g] = 0 /\ pool[b] > 0 /\ cls[b] = PoolFor(l)
+                /\ pool' = [pool EXCEPT ![b] = @ - 1] /\ holds' = [holds EXCEPT ![g] = b]
+                /\ putsLeft' = [putsLeft EXCEPT ![g] = IF DoublePut /\ g = 1 THEN 2 ELSE 1]
+                /\ oob' = (oob \/ l > cap[b])
+                /\ UNCHANGED <<cap, cls>>
+\* the holder needs more room than the workspace has: the backing array is replaced
+Grow(g, c) == /\ holds[g] # 0 /\ putsLeft[g] > 0 /\ Regrow > 0 /\ c > cap[holds[g]]
+              /\ (Regrow = 1) => (\E k \in Classes : c = Pow2(k))
+              /\ cap' = [cap EXCEPT ![holds[g]] = c]
+              /\ UNCHANGED <<pool, holds, putsLeft, cls, oob>>
 Put(g) == /\ holds[g] # 0 /\ putsLeft[g] > 0
           /\ pool' = [pool EXCEPT ![holds[g]] = @ + 1]
+          /\ cls' = [cls EXCEPT ![holds[g]] = PoolFor(cap[holds[g]])]
           /\ putsLeft' = [putsLeft EXCEPT ![g] = @ - 1]
           /\ holds' = [holds EXCEPT ![g] = IF putsLeft[g] = 1 THEN 0 ELSE @]
-Next == \E g \in Gs : Put(g) \/ \E b \in Bufs : Get(g, b)
+          /\ UNCHANGED <<cap, oob>>
+Next == \E g \in Gs : Put(g) \/ (\E b \in Bufs, l \in 1 .. MaxCap : Get(g, b, l)) \/ (\E c \in 1 .. MaxCap : Grow(g, c))
 Spec == Init /\ [][Next]_vars
 
-OneHolder == \A b \in Bufs : Cardinality({g \in Gs : holds[g] = b}) + pool[b] <= 1 + (IF DoublePut THEN 1 ELSE 0) * 0
 Exclusive == \A g1, g2 \in Gs : (g1 # g2 /\ holds[g1] # 0) => holds[g1] # holds[g2]
+\* every pooled buffer can serve the largest request of the class it is filed under
+ClassPromise == \A b \in Bufs : pool[b] > 0 => cap[b] >= Pow2(cls[b])
+NoSliceOutOfRange == ~oob
+\* the clause the trace acceptor evaluates on a logged put (capacity c): the buffer goes to class PoolFor(c)
+CapOK(c) == c >= Pow2(PoolFor(c))
+\* ... and it is equivalent to the promise of that class (checked here for every capacity of the model)
+CapClause == \A c \in 1 .. MaxCap : CapOK(c) <=> (\E k \in Classes : c = Pow2(k))
 =============================================================================
